@@ -632,3 +632,58 @@ pub mod skip {
         })
     }
 }
+
+/// `Shape` arithmetic (shape.rs): apply a sequence of operations to
+/// `Shape { width, indent: Indent::new(block, alignment), offset }`. Operation codes: 0
+/// visual_indent, 1 block_indent, 2 block_left, 3 add_offset, 4 block, 5 saturating_sub_width,
+/// 6 sub_width, 7 shrink_left, 8 offset_left, 9 with_max_width (argument = max_width), 10
+/// comment (argument = comment_width), 11 infinite_width. Stops at the first operation that
+/// reports "does not fit"; returns (width, block_indent, alignment, offset) and whether all
+/// operations succeeded.
+pub fn shape_ops(
+    start: (usize, usize, usize, usize),
+    ops: &[(u8, usize)],
+) -> ((usize, usize, usize, usize), bool) {
+    use crate::shape::{Indent, Shape};
+    let mut s = Shape {
+        width: start.0,
+        indent: Indent::new(start.1, start.2),
+        offset: start.3,
+    };
+    let span = rustc_span::DUMMY_SP;
+    let mut ok = true;
+    for &(op, d) in ops {
+        let mut cfg = Config::default();
+        let next = match op {
+            0 => Some(s.visual_indent(d)),
+            1 => Some(s.block_indent(d)),
+            2 => s.block_left(d, span).ok(),
+            3 => Some(s.add_offset(d)),
+            4 => Some(s.block()),
+            5 => Some(s.saturating_sub_width(d)),
+            6 => s.sub_width(d, span).ok(),
+            7 => s.shrink_left(d, span).ok(),
+            8 => s.offset_left(d, span).ok(),
+            9 => {
+                cfg.set().max_width(d);
+                Some(s.with_max_width(&cfg))
+            }
+            10 => {
+                cfg.set().comment_width(d);
+                Some(s.comment(&cfg))
+            }
+            _ => Some(s.infinite_width()),
+        };
+        match next {
+            Some(n) => s = n,
+            None => {
+                ok = false;
+                break;
+            }
+        }
+    }
+    (
+        (s.width, s.indent.block_indent, s.indent.alignment, s.offset),
+        ok,
+    )
+}
